@@ -328,7 +328,17 @@ def oracle_c14(tr: Trace):
                 (tr.kind == "source" and _cancel_eof_emitted_since_put(tr, k)) or
                 (tr.kind == "dest" and pf["disposition"] == 1 and pf["step"] == 9))
             if kind == 14 and in_cancel_exchange:
-                continue                # abandonment of a cancellation exchange (CFDP 4.11.2.2.3 / 4.11.2.3.3)
+                # abandonment of a cancellation exchange (CFDP 4.11.2.2.3 / 4.11.2.3.3).  At the sender it is still the table
+                # that decides: the abandon callback with the EOF's condition comes from a second cancel request or from a
+                # limit fault whose handler is the notice of cancellation; with IGNORE the exchange carries on, with ABANDON
+                # the callback carries the limit condition itself
+                acked_tx = next((codec.dec_got(x.ob["extra"])[0]["mode"] == 0 for x in reversed(tr.steps[:k])
+                                 if x.tag == 2 and x.ob["ret"] == 1), False)
+                if tr.kind == "source" and st.tag != 3 and cond not in (1, 10) and table.get(1) in (3, 4) and \
+                        (acked_tx or table.get(10) in (3, 4, None)):
+                    raise Failure(f"C14 the cancellation exchange was abandoned with condition {cond} although the table maps the "
+                                  f"limit faults to handler code {table.get(1)}: the table did not decide the outcome (op {st.i})")
+                continue
             if code is None:
                 raise Failure(f"C14 callback for condition {cond} which is not in the fault handler table (op {st.i})")
             if kind != 10 + code:
@@ -482,6 +492,12 @@ def _c15_source(tr, gate):
                     raise Failure(f"C15 sender's Transaction-Finished reports {tuple(e[3:6])}; the Finished PDU(s) handed in for this "
                                   f"transaction carried {sorted(received_fin or [])} (own success notice (0, 0, 3) when none is "
                                   f"expected) (op {st.i})")
+        if st.tag == 3 and st.ob["ret"] == 1 and st.ob["exc"] == 0 and started and put is not None and rem is not None \
+                and (put["mode"] if put["mode"] is not None else rem["mode"]) == 1 and gate[3] \
+                and not _cancel_eof_emitted_since_put(tr, k) and not any(e[0] == 3 for e in evs):
+            # the first cancel of a running unacknowledged transaction ends it with its EOF (cancel): the user is told
+            raise Failure(f"C15 successful cancel request on a running unacknowledged transaction delivered no "
+                          f"Transaction-Finished indication (events {evs}) (op {st.i})")
         for e in evs:
             if e[0] == 1:
                 if started:
